@@ -1,5 +1,6 @@
 import Pcore.Proofs.ValueEqKey
 import Pcore.Proofs.ValueEqTyKey
+import Pcore.Generated.KeyTable
 /-!
 # C07 — Equality is an equivalence relation and hash keys respect it
 
@@ -32,6 +33,10 @@ Full statement / proved / missing
 * `C07_unique_sub`, `C07_unique_cover`, `C07_unique_distinct` — **proved**: the survivors are a sub-sequence of the
   input, every input is equal to a survivor, no two survivors are equal.
 * `C07_no_fault` — **proved**: `px.ToKey` of a comparable value does not panic.
+* `C07_key_table_ok`, `C07_prefixes_distinct` — **proved by `decide` over the table regenerated from /repo on every run**
+  (`Generated/KeyTable.lean`: the `HkXxx` constants and the leading bytes each `ToKey` writes): they are the bytes the
+  model writes, and the eleven kinds have pairwise distinct two-byte heads.  A change of a prefix byte in the code breaks
+  this obligation.
 * missing: value kinds and types outside the model (Timespan, Timestamp, SemVer, SemVerRange, URI, objects; String types
   with a size or value, Struct, Hash, Pattern, Object, Callable … types): no theorem, only the harness predicate where
   generated.  Hidden state: by correspondence only (see above).
@@ -176,6 +181,30 @@ theorem C07_unique_distinct (vs : List Val) (hc : ∀ v ∈ vs, Comparable v) (t
   | true =>
     exact absurd ((kb_iff tyKey_sound a b (hc a (sub ha)) (hc b (sub hb)) (ts a (sub ha) b (sub hb))
       (tk a (sub ha) b (sub hb))).mpr h) hne
+
+/-! ## second tie: the kind prefixes regenerated from the Go sources are the ones the model writes -/
+
+/-- the leading bytes the model writes, listed by the Go method they mirror -/
+def modelHeads : List (String × List Nat) := [
+  ("Array", (kb (.array [])).map (·.toNat)),
+  ("HashEntry", ((kb (.entry .undef .undef)).take 2).map (·.toNat)),
+  ("Hash", (kb (.hash [])).map (·.toNat)),
+  ("Binary", (kb (.binary [])).map (·.toNat)),
+  ("integerValue", ((kb (.int 0)).take 2).map (·.toNat)),
+  ("floatValue", ((kb (.float 0)).take 2).map (·.toNat)),
+  ("Regexp", (kb (.regexp [])).map (·.toNat)),
+  ("TupleType", ((tyKey (.tup [] none)).take 2).map (·.toNat)),
+  ("UndefValue", (kb .undef).map (·.toNat)),
+  ("DefaultValue", (kb .dflt).map (·.toNat)),
+  ("hkTrue", (kb (.bool true)).map (·.toNat)),
+  ("hkFalse", (kb (.bool false)).map (·.toNat)),
+  ("appendKey(type)", ((tyKey .any).take 2).map (·.toNat)),
+  ("appendElementKey(string)", (mark (.str [])).map (·.toNat))]
+
+theorem C07_key_table_ok : Pcore.Generated.keyHeads = modelHeads := by decide
+
+/-- eleven kinds, eleven different two-byte heads (Array = HashEntry, Tuple = every other type, true/false share one) -/
+theorem C07_prefixes_distinct : ((Pcore.Generated.keyHeads.map (·.2.take 2)).eraseDups).length = 11 := by decide
 
 /-! ## non-vacuity: the hypotheses are met by non-trivial cases -/
 
